@@ -176,3 +176,10 @@ pub fn dump_mem(pid: i32, o: &DumpOpts) -> DumpResult {
     let mut c = std::io::Cursor::new(Vec::new());
     run_dump(pid, o, &mut c)
 }
+
+/// Dump into a recording destination positioned at `start` over pre-existing content `pre`.
+pub fn dump_recorded(pid: i32, o: &DumpOpts, start: u64, pre: Vec<u8>, fault: crate::dest::Fault) -> (DumpResult, crate::dest::RecDest) {
+    let mut d = crate::dest::RecDest::new(pre, start, fault);
+    let r = run_dump(pid, o, &mut d);
+    (r, d)
+}
